@@ -5,7 +5,7 @@
     configuration accepted by [senv_ok]. *)
 From Coq Require Import ZArith List Bool Lia.
 From PV Require Import Model.Base Model.Sched Model.Seq.
-From PV Require Import Proofs.SchedInv Proofs.SchedOps Proofs.SeqInv Proofs.DurationSpec.
+From PV Require Import Proofs.SchedInv Proofs.SchedOps Proofs.SeqInv Proofs.DurationSpec Proofs.AlignWitness.
 Import ListNotations.
 Open Scope Z_scope.
 
@@ -70,4 +70,29 @@ Proof.
   { eapply find_chan_ok; [|exact Hf]. apply run_ok; exact Hv. }
   destruct (duration_is_max_end (env_of v) c s r Hok Es) as [-> _].
   apply Hall. left; reflexivity.
+Qed.
+
+(** The hypotheses are met by a non-trivial split of the witness history of
+    Proofs/AlignWitness.v: after its first two calls both channels exist with
+    their initial target, and the remaining two calls extend both. *)
+Lemma history_example :
+  senv_ok wenv /\
+  (exists c, find_chan 0 (q_sched (run wenv (firstn 2 wops))) = Some c /\ ch_slots c <> []) /\
+  firstn 2 wops ++ skipn 2 wops = wops /\
+  map (fun c => length (ch_slots c)) (q_sched (run wenv (firstn 2 wops))) = [1%nat; 1%nat] /\
+  map (fun c => length (ch_slots c)) (q_sched (run wenv (firstn 2 wops ++ skipn 2 wops))) = [2%nat; 2%nat].
+Proof.
+  split; [apply reachable_state_example|].
+  split.
+  { destruct (find_chan 0 (q_sched (run wenv (firstn 2 wops)))) as [c|] eqn:E.
+    - exists c. split; [reflexivity|].
+      assert (H : match find_chan 0 (q_sched (run wenv (firstn 2 wops))) with
+                  | Some c => length (ch_slots c) | None => 0%nat end = 1%nat)
+        by (vm_compute; reflexivity).
+      rewrite E in H. intros K. rewrite K in H. discriminate H.
+    - assert (H : match find_chan 0 (q_sched (run wenv (firstn 2 wops))) with
+                  | Some _ => true | None => false end = true) by (vm_compute; reflexivity).
+      rewrite E in H. discriminate H. }
+  split; [apply firstn_skipn|].
+  split; vm_compute; reflexivity.
 Qed.
